@@ -57,6 +57,11 @@ def direct(prop, ops):
                     out.append(Finding(prop, i, sig(i, "misaligned"), l))
                 if "!lenbad" in l:
                     out.append(Finding(prop, i, sig(i, "lenbad"), l))
+    if prop in ("C01", "C03"):
+        for i, (op, obs) in enumerate(ops):
+            for l in lines_of(obs, "pr "):
+                if l[3:].strip() not in ("0", ""):
+                    out.append(Finding(prop, i, sig(i, "hand-made-id-valid"), f"{l[3:]} hand-made entity ids (neighbouring generations of issued ids) are valid"))
     if prop == "C03":
         seen = {}
         for i, (op, obs) in enumerate(ops):
